@@ -105,7 +105,7 @@ def make_scenarios(tier, seed):
     return scn
 
 
-def build(scn, status_map=None):
+def build(scn, status_map=None, scale=1.0):
     """(G, H, J, kwargs) for Gillespie_simple_contagion"""
     import networkx as nx
     sm = (lambda s: s) if status_map is None else (lambda s: status_map[s])
@@ -122,7 +122,7 @@ def build(scn, status_map=None):
         H.add_node(sm(s))
     calls = []
     for j, t in enumerate(scn["spont"]):
-        attrs = {"rate": t["rate"] * RATE_UNIT}
+        attrs = {"rate": t["rate"] * RATE_UNIT * scale}
         if scn["wmode"] == "label":
             lab = "nw%d" % j
             for u in range(1, n + 1):
@@ -135,7 +135,7 @@ def build(scn, status_map=None):
             attrs["rate_function"] = rf
         H.add_edge(sm(t["from"]), sm(t["to"]), **attrs)
     for j, t in enumerate(scn["induced"]):
-        attrs = {"rate": t["rate"] * RATE_UNIT}
+        attrs = {"rate": t["rate"] * RATE_UNIT * scale}
         if scn["wmode"] == "label":
             lab = "ew%d" % j
             for (u, v) in G.edges():
@@ -161,7 +161,8 @@ def run_scenario(task):
     if task.get("tuple_statuses"):
         smap = {s: (s, k) for k, s in enumerate(scn["statuses"])}
     inv = {v: k for k, v in smap.items()} if smap else None
-    G, H, J, calls = build(scn, smap)
+    scale = task.get("scale", 1.0)     # a power of two: very slow / very fast models with exact float arithmetic
+    G, H, J, calls = build(scn, smap, scale)
     sm = (lambda s: s) if smap is None else (lambda s: smap[s])
     IC = {u: sm(st0[u - 1]) for u in nodes}
     rs = [sm(s) for s in scn["statuses"]]
@@ -208,7 +209,7 @@ def run_scenario(task):
         return ev, pr
 
     cls = "%s|%s|%s" % (scn["model"], "directed" if scn["directed"] else "undirected", scn["wmode"])
-    res = walk.walk(fn_full, parse, st0, succ, RATE_UNIT, horizon, max_exp=horizon + 2, max_leaves=task.get("max_leaves", 40000), cls=cls)
+    res = walk.walk(fn_full, parse, st0, succ, RATE_UNIT * scale, horizon, max_exp=horizon + 2, max_leaves=task.get("max_leaves", 40000), cls=cls)
     problems = res["problems"]
     # rate functions are evaluated at set-up only: once per node / ordered neighbour pair
     narr = 0
